@@ -222,7 +222,7 @@ VARIANTS = [{'which': 'quote', 'sp': True, 'm': 0, 'pad': 1}, {'which': 'quote',
 
 
 @lemma('Q4.pipeline', 'C04',
-       quick=[dict(v, k=1, sigma=True) for v in VARIANTS[:4]] + by('c1', list('a-#>`[='), [dict(v, k=2, sigma=False) for v in (VARIANTS[0], VARIANTS[2])]),
+       quick=[dict(v, k=1, sigma=True) for v in VARIANTS[:4]] + by('c1', list('a-#>='), [dict(v, k=2, sigma=False) for v in (VARIANTS[0], VARIANTS[2])]),
        thorough=[dict(v, k=1, sigma=True) for v in VARIANTS]
        + by('c1', list(Q4_ALPH), [dict(v, k=k, sigma=False, timeout=3000) for v in VARIANTS for k in (2, 3)]),
        timeout=900, per_path=120, canary=[{'k': 3, 'sigma': False, 'which': 'quote', 'sp': True, 'm': 0, 'pad': 1, 'c1': 'a', 'noexcl': True}],
@@ -248,7 +248,7 @@ Q5_SKELETONS = {
 }
 
 
-@lemma('Q5.skeletons', 'C04', quick=[dict(v, sk=s) for s in sorted(Q5_SKELETONS) for v in (VARIANTS[0], VARIANTS[3]) if not (s == 'setext' and v['which'] == 'quote')],
+@lemma('Q5.skeletons', 'C04', quick=[dict(VARIANTS[0] if i % 2 == 0 and s != 'setext' else VARIANTS[3], sk=s) for i, s in enumerate(sorted(Q5_SKELETONS))],
        thorough=[dict(v, sk=s) for s in sorted(Q5_SKELETONS) for v in VARIANTS if not (s == 'setext' and v['which'] == 'quote')],
        timeout=900, per_path=120, canary=[{'sk': 'setext', 'which': 'quote', 'sp': True, 'm': 0, 'pad': 1, 'noexcl': True}],
        covers=['block_token.py:Quote.read', 'block_token.py:ListItem.read', 'block_tokenizer.py:tokenize_block', 'block_token.py:Paragraph.read'],
